@@ -29,7 +29,7 @@ REQUIRED = ["at_most_once_atomic", "at_most_one_success_atomic", "at_most_one_su
             "at_most_once_partial", "mark_separated_partial",
             "nonce_covers_window", "replay_window_empty_today", "s2s_no_replay_inside_window", "program_matches_api_calls",
             "fact_consumer_calls", "fact_store_users", "fact_prefixes_distinct", "fact_gad_atomic_today",
-            "fact_mark_atomic_today", "fact_session_store_shapes"]
+            "fact_mark_atomic_today", "fact_session_store_shapes", "fact_ttls_positive", "two_success_witness_multinode"]
 
 
 def oracle(op, line, facts):
@@ -118,7 +118,7 @@ def run(ctx):
             env["VERIF_REPLAY"] = os.path.abspath(ctx.replay)
         else:
             env["VERIF_CORPUS"] = corpus
-            env["VERIF_MAXRUNS"] = 5000 if ctx.thorough else 3000
+            env["VERIF_MAXRUNS"] = 3500 if ctx.thorough else 3000
         out = os.path.join(ctx.scratch, "out-" + name)
         rc, log, out = ctx.run_harness(binary, "TestVerifC05", env, outdir=out, timeout=3000, cwd=cwd)
         if rc != 0:
